@@ -231,6 +231,15 @@ func (g *gen) jump(sc scope) (stmt, bool) {
 		return nil, false
 	}
 	j := cands[rapid.IntRange(0, len(cands)-1).Draw(g.rt, "jump")]
+	if len(sc.loops) >= 2 && g.chance(60, "outerjump") {
+		// aim at an outer loop
+		l := sc.loops[rapid.IntRange(0, len(sc.loops)-2).Draw(g.rt, "outerlabel")]
+		if g.chance(50, "outerleave") || sc.repeatLbls[l] {
+			j = sLeave{l}
+		} else {
+			j = sIterate{l}
+		}
+	}
 	if g.chance(80, "guarded") {
 		return sIf{conds: []expr{g.cond(sc, 1)}, thens: [][]stmt{{j}}}, true
 	}
@@ -259,6 +268,8 @@ func (g *gen) stmts(sc scope) []stmt {
 	k := rapid.IntRange(0, 99).Draw(g.rt, "stmt")
 	if len(sc.loops) > 0 && g.chance(30, "morejumps") {
 		k = 30
+	} else if sc.inLoop && compound && g.chance(25, "nestloop") {
+		k = 70
 	}
 	switch {
 	case k < 22:
@@ -487,6 +498,20 @@ func (g *gen) loop(sc scope) []stmt {
 	inc := sSet{c, eBin{"+", eVar{c}, eLit{intV(1)}}}
 	reset := sSet{c, eLit{intV(0)}}
 	body := g.list(in, 1, 3)
+	if len(sc.loops) > 0 && g.chance(50, "jumpout") {
+		// a jump from this (inner) loop to an enclosing loop's label, somewhere in the body
+		l := sc.loops[rapid.IntRange(0, len(sc.loops)-1).Draw(g.rt, "outerlabel")]
+		var j stmt = sLeave{l}
+		if !sc.repeatLbls[l] && g.chance(50, "outeriterate") {
+			j = sIterate{l}
+		}
+		j = sIf{conds: []expr{g.cond(in, 1)}, thens: [][]stmt{{j}}}
+		pos := rapid.IntRange(0, len(body)).Draw(g.rt, "jumppos")
+		body = append(body[:pos:pos], append([]stmt{j}, body[pos:]...)...)
+	} else if label != "" && in.depth < g.maxDepth && g.chance(25, "innerloop") {
+		// make sure nested loops are common
+		body = append(body, g.loop(in)...)
+	}
 	switch kind {
 	case 0:
 		cnd := expr(eCmp{"<", eVar{c}, eLit{intV(bound)}})
